@@ -14,9 +14,13 @@ LEVEL = 'model_checking'
 CMP = ['<', '<=', '>', '>=', '==', '!=']
 
 
+BYTE_OPS = [('+', 300), ('-', 300), ('*', 258), ('/', 300), ('%', 300), ('/', 513), ('%', 256), ('+', 255), ('*', 255), ('/', 3), ('%', 7), ('/', 255), ('-', 1)]
+
+
 def program(ta, tb):
     """ta, tb in int/byte.  Emits source; value lines are produced in a fixed order mirrored by expected()."""
     L = []
+    L.append('int gA = 0; int gB = 0; byte gY = 0; byte[] gYs = [0, 0];')
     L.append('empty !d(bool c) { write(\'(\'); !truth_is_defeat(c); write(\')\'); }')
     L.append(f'empty @is_you({ta} a, {tb} b) {{')
     for op in ('+', '-', '*'):
@@ -50,6 +54,16 @@ def program(ta, tb):
         L.append("if ((a is byte) or q) { write('T'); } else { write('F'); }")
         L.append("int m = 0; while ((a is byte) and m < 2) { m += 1; } write(m);")
         L.append("write((a is byte) is bool); write(((a is byte) is bool) is int);")
+    L.append('writeln();')
+    # the same casts with the operand held in a mutable global (another access path)
+    L.append('gA = a; gB = b;')
+    L.append('write(gA is bool); write(not (gA is bool)); write((gA is bool) is int); write(gA < gB); write((gA is byte) is int); write(-gA); bool gp = gA is bool; write(gp);')
+    L.append("if (gA is bool) { write('T'); } else { write('F'); } writeln();")
+    # compound assignment on byte targets: the operation is done on ints, the result is narrowed
+    L.append('byte t = a is byte; byte[] ts = [a is byte, 1];')
+    for op, k in BYTE_OPS:
+        L.append(f't = a is byte; t {op}= {k}; write(t is int); write(\' \'); ts[0] = a is byte; ts[0] {op}= {k}; write(ts[0] is int); write(\' \'); '
+                 f'gY = a is byte; gY {op}= {k}; write(gY is int); gYs[1] = a is byte; gYs[1] {op}= {k}; write(gYs[1] is int); write(\' \');')
     L.append('writeln();')
     # defeat position
     for op in CMP:
@@ -122,6 +136,13 @@ def expected(ta, tb, a, b, W):
         out.append(b''.join(b'T' if c else b'F' for c in (lb, not lb, lb and q, lb or q)))
         out.append(b'2' if lb else b'0')
         out.append(tf(lb) + (b'1' if lb else b'0'))
+    out.append(b'\n')
+    out.append(tf(a != 0) + tf(a == 0) + str(int(a != 0)).encode() + tf(a < b) + str(a & 0xFF).encode() + str(wrap(-a)).encode() + tf(a != 0))
+    out.append((b'T' if a != 0 else b'F') + b'\n')
+    lowb = a & 0xFF
+    for op, k in BYTE_OPS:
+        v = {'+': lowb + k, '-': lowb - k, '*': lowb * k, '/': lowb // k, '%': lowb % k}[op] & 0xFF
+        out.append(f'{v} {v} {v}{v} '.encode())
     out.append(b'\n')
     d = []
     for op in CMP:
